@@ -277,18 +277,23 @@ class Interp:
     def e_Dict(self, e, st):
         keys = [k for k in e.keys]
         if any(k is None for k in keys):
-            # {**a, **b}
-            def merge(vs, s):
-                out: dict = {}
-                for k, v in zip(keys, vs):
-                    if k is None:
-                        if isinstance(v, Ref) and s.obj(v).kind == "dict":
-                            self.B.dict_merge(out, s.obj(v).fields)
+            # {**a, k: v, **b}: unpacked maps and explicit entries, left to right
+            def merge_keys(ks, s0):
+                def merge(vs, s):
+                    out: dict = {}
+                    for k_expr, k, v in zip(keys, ks, vs):
+                        if k_expr is None:
+                            if isinstance(v, Ref) and s.obj(v).kind == "dict":
+                                self.B.dict_merge(out, s.obj(v).fields)
+                            else:
+                                s.note("dict unpack of non-dict")
+                        elif self.B.hashable(k):
+                            out[k] = v
                         else:
-                            s.note("dict unpack of non-dict")
-                    # mixed literal keys are handled below
-                return [(s.alloc(HObj("dict", fields=out)), s)]
-            return self.bind(self.eval_list(e.values, st), merge)
+                            s.note("dict literal with abstract key")
+                    return [(s.alloc(HObj("dict", fields=out)), s)]
+                return self.bind(self.eval_list(e.values, s0), merge)
+            return self.bind(self.eval_list([k if k is not None else ast.Constant(value=None) for k in keys], st), merge_keys)
         def f(ks, s):
             def g(vs, s2):
                 d = {}
